@@ -47,6 +47,11 @@ type Lab struct {
 
 	Prices   rhp4.HostPrices
 	HostAddr types.Address
+
+	// Inj is shared by every proxy of the lab; idle unless Begin was called
+	Inj       *Injector
+	HostChain *HostChain
+	RentPool  *RenterPool
 }
 
 // BasePrices are the host prices used by every lab.
@@ -87,6 +92,10 @@ func NewLab(opt Options) (*Lab, error) {
 	if l.RentWallet, err = l.RenterNode.NewWallet("renter", types.GeneratePrivateKey()); err != nil {
 		return nil, err
 	}
+	l.Inj = NewInjector()
+	l.HostWallet.Inj, l.RentWallet.Inj = l.Inj, l.Inj
+	l.HostChain = &HostChain{CM: l.HostNode.CM, Inj: l.Inj}
+	l.RentPool = &RenterPool{CM: l.RenterNode.CM, Inj: l.Inj}
 	l.Signer = &RenterSigner{W: l.RentWallet, Key: l.RenterKey, UseUnconfirmed: true}
 	l.HostAddr = l.HostWallet.Address()
 
@@ -120,7 +129,7 @@ func NewLab(opt Options) (*Lab, error) {
 	})
 	l.Sectors = testutil.NewEphemeralSectorStore()
 	ec := testutil.NewEphemeralContractor(l.HostNode.CM)
-	l.Contractor = &Contractor{EphemeralContractor: ec}
+	l.Contractor = &Contractor{EphemeralContractor: ec, Inj: l.Inj}
 	l.HostNode.mu.Lock()
 	l.HostNode.contractors = append(l.HostNode.contractors, ec)
 	l.HostNode.mu.Unlock()
@@ -129,7 +138,7 @@ func NewLab(opt Options) (*Lab, error) {
 		return nil, err
 	}
 
-	l.Server = rhp.NewServer(l.HostKey, l.HostNode.CM, l.Contractor, l.HostWallet, l.Settings, l.Sectors,
+	l.Server = rhp.NewServer(l.HostKey, l.HostChain, l.Contractor, l.HostWallet, l.Settings, l.Sectors,
 		rhp.WithPriceTableValidity(12*time.Hour), rhp.WithRPCTimeout(10*time.Minute))
 	l.T = NewTransport(l.HostKey.PublicKey())
 	go l.Server.Serve(l.T.Mux(), zap.NewNop())
